@@ -744,7 +744,7 @@ fn serve() {
         if line.trim().is_empty() {
             continue;
         }
-        // announce the request before running it, so that a process abort can be attributed
+        REQUEST_SEQ.fetch_add(1, std::sync::atomic::Ordering::SeqCst);
         let r = std::panic::catch_unwind(std::panic::AssertUnwindSafe(|| handle(&natives, &mut session, &mut pipe, &line)));
         let response =
         match r {
@@ -761,11 +761,40 @@ fn serve() {
         };
         let _ = writeln!(out, "{}", response.replace('\n', " "));
         let _ = out.flush();
+        REQUEST_SEQ.fetch_add(1, std::sync::atomic::Ordering::SeqCst);
     }
+}
+
+/// odd while a request is being served; a request that is still the same one after PICILISP_VERIF_WATCHDOG seconds
+/// (a hang of the interpreter on a broken tree) ends the process with exit status 3, so that the harness can go on
+static REQUEST_SEQ: std::sync::atomic::AtomicU64 = std::sync::atomic::AtomicU64::new(0);
+
+fn start_watchdog() {
+    let limit = std::env::var("PICILISP_VERIF_WATCHDOG").ok().and_then(|s| s.parse::<u64>().ok()).unwrap_or(0);
+    if limit == 0 {
+        return;
+    }
+    std::thread::spawn(move || {
+        let mut last = u64::MAX;
+        let mut since = std::time::Instant::now();
+        loop {
+            std::thread::sleep(std::time::Duration::from_millis(500));
+            let now = REQUEST_SEQ.load(std::sync::atomic::Ordering::SeqCst);
+            if now != last {
+                last = now;
+                since = std::time::Instant::now();
+            }
+            else if now % 2 == 1 && since.elapsed().as_secs() >= limit {
+                eprintln!("verif driver: request {} did not return within {} s", now / 2, limit);
+                std::process::exit(3);
+            }
+        }
+    });
 }
 
 
 pub fn main(stack_size: Option<usize>) {
+    start_watchdog();
     match stack_size {
         None => serve(),
         Some(n) => {
